@@ -345,3 +345,147 @@ func c15NilResults(p *load.Prog, r *oblig.Run) {
 		}
 	}
 }
+
+// c15Work (R15.g): an Evaluate method evaluates each of its argument
+// statements at most once on its own (unchanged) input. Evaluating the same
+// child twice on the same input doubles the work at every nesting level: a
+// query nested n deep then needs 2^n evaluations and, for all practical
+// purposes, never returns.
+func c15Work(p *load.Prog, r *oblig.Run) {
+	r.Rule("R15.g", "an Evaluate method evaluates each argument statement at most once on its unchanged input (nested queries take time linear, not exponential, in their depth)", 10)
+	var fns []*ssa.Function
+	for _, fn := range p.Repo {
+		if fn.Name() == "Evaluate" && pkgPathOf(fn) == load.PkgQ && fn.Synthetic == "" && len(fn.Blocks) > 0 {
+			fns = append(fns, fn)
+		}
+	}
+	sort.Slice(fns, func(i, j int) bool { return fns[i].String() < fns[j].String() })
+	type childEval struct {
+		call   ssa.CallInstruction
+		lo, hi int64 // indexes of args it can denote; hi < 0: unbounded
+	}
+	for _, fn := range fns {
+		var input, args *ssa.Parameter
+		for _, prm := range fn.Params {
+			switch prm.Name() {
+			case "input":
+				input = prm
+			case "args":
+				args = prm
+			}
+		}
+		if input == nil || args == nil {
+			continue
+		}
+		// element loops over args or over args[k:]
+		type loopOf struct {
+			l  elementLoop
+			lo int64
+		}
+		var loops []loopOf
+		for _, l := range findElementLoops(fn, args) {
+			loops = append(loops, loopOf{l, 0})
+		}
+		for _, b := range fn.Blocks {
+			for _, ins := range b.Instrs {
+				sl, ok := ins.(*ssa.Slice)
+				if !ok || sl.X != ssa.Value(args) || sl.High != nil {
+					continue
+				}
+				lo := int64(0)
+				if sl.Low != nil {
+					k, isK := su.ConstInt(sl.Low)
+					if !isK {
+						continue
+					}
+					lo = k
+				}
+				for _, l := range findElementLoops(fn, sl) {
+					loops = append(loops, loopOf{l, lo})
+				}
+			}
+		}
+		var evals []childEval
+		undecided := ""
+		for _, c := range su.Calls(fn) {
+			cc := c.Common()
+			name := ""
+			if cc.IsInvoke() {
+				name = cc.Method.Name()
+			} else if cal := cc.StaticCallee(); cal != nil && pkgPathOf(cal) == load.PkgQ {
+				name = cal.Name()
+			}
+			if name != "Evaluate" {
+				continue
+			}
+			// the input operand: the argument of the type of `input`
+			var recv ssa.Value
+			var in ssa.Value
+			if cc.IsInvoke() {
+				recv = cc.Value
+				if len(cc.Args) >= 2 {
+					in = cc.Args[1]
+				}
+			} else if len(cc.Args) >= 3 {
+				recv = cc.Args[0]
+				in = cc.Args[2]
+			}
+			if in != ssa.Value(input) || recv == nil {
+				continue
+			}
+			ld, ok := su.Strip(recv).(*ssa.UnOp)
+			if !ok {
+				continue // not an element of args (a field of the receiver, a variable's statement)
+			}
+			ia, ok := ld.X.(*ssa.IndexAddr)
+			if !ok {
+				continue
+			}
+			if ia.X == ssa.Value(args) {
+				if k, isK := su.ConstInt(ia.Index); isK {
+					evals = append(evals, childEval{c, k, k})
+					continue
+				}
+			}
+			found := false
+			for _, lp := range loops {
+				if lp.l.elementOf(recv) {
+					evals = append(evals, childEval{c, lp.lo, -1})
+					found = true
+				}
+			}
+			if !found && (ia.X == ssa.Value(args)) {
+				undecided = "an argument statement is selected by an index this rule cannot follow at " + p.Pos(c.Pos())
+			}
+		}
+		o := r.Add("R15.g", load.FuncName(fn), p.Pos(fn.Pos()), "argument statements evaluated on the unchanged input")
+		if undecided != "" {
+			o.Unknown(undecided)
+			continue
+		}
+		bad := ""
+		for i := 0; i < len(evals) && bad == ""; i++ {
+			for j := i + 1; j < len(evals); j++ {
+				a, b := evals[i], evals[j]
+				overlap := (a.hi < 0 || b.lo <= a.hi) && (b.hi < 0 || a.lo <= b.hi)
+				if !overlap {
+					continue
+				}
+				ra, rb := su.ReachableBlocks(a.call.Block()), su.ReachableBlocks(b.call.Block())
+				if a.call.Block() == b.call.Block() || ra[b.call.Block()] || rb[a.call.Block()] {
+					idx := a.lo
+					if b.lo > idx {
+						idx = b.lo
+					}
+					bad = fmt.Sprintf("argument %d is evaluated on the same input both at %s and at %s: every level of nesting doubles the work, so a query nested n deep takes 2^n evaluations and effectively never returns", idx, p.Pos(a.call.Pos()), p.Pos(b.call.Pos()))
+					break
+				}
+			}
+		}
+		if bad != "" {
+			o.Fail(bad)
+		} else {
+			o.OK(fmt.Sprintf("%d evaluation site(s), pairwise distinct arguments", len(evals)))
+		}
+	}
+}
